@@ -21,7 +21,8 @@ RULE = (
     "slice_key(i); (3) gather_slices of the reference per-slice values == "
     "reference full contraction; (4) gen_output_chunks(with_key) yields "
     "nchunks chunks with distinct keys covering the sliced output ranges, "
-    "each equal to the reference section; (5) tree.contract == reference. "
+    "each equal to the reference section; (5) tree.contract == reference, "
+    "also with strip_exponent=True (mantissa x 10**exponent, rel. 1e-9). "
     "Non-trivial = >=2 removed labels including an output label or a "
     "projection. Distinct = sha1(spec)."
 )
@@ -40,6 +41,7 @@ def cases(draw, max_n):
         "aseed": draw(st.integers(0, 999)),
         "dtype": draw(st.sampled_from(["f", "c"])),
         "prefer_einsum": draw(st.booleans()),
+        "strip": draw(st.booleans()),
     }
 
 
@@ -172,6 +174,26 @@ def run_case(spec, sub=None):
                     want_keys.add(tuple(sorted(k.items())))
                 if seen != want_keys:
                     viol.append("chunk keys do not tile the sliced output ranges exactly once")
+
+    # (5b) the same reassembly with stripped exponents (strictly positive arrays,
+    # so that no slice is identically zero - the premise of stripping)
+    if not viol and spec.get("strip") and removed:
+        pos = [np.abs(a) + 1 for a in arrays]
+        full_p = ref.dense_ref(inputs, output, sizes, pos, fixed=proj)
+        ok, g = guarded(tree.contract, pos, strip_exponent=True, **kw)
+        if not ok:
+            viol.append(f"contract(strip_exponent=True) raised {g}")
+        elif not (isinstance(g, tuple) and len(g) == 2):
+            viol.append("contract(strip_exponent=True) did not return (mantissa, exponent)")
+        else:
+            m, e = g
+            val = np.asarray(m) * 10.0 ** float(e)
+            if tuple(val.shape) not in (full_shape, tuple(full_p.shape)):
+                viol.append(f"contract(strip_exponent=True): shape {tuple(val.shape)} != declared {full_shape}")
+            else:
+                tol = 1e-9 * float(np.max(np.abs(full_p))) if full_p.size else 0.0
+                if full_p.size and not np.all(np.abs(val.reshape(full_p.shape) - full_p) <= tol):
+                    viol.append("contract(strip_exponent=True): mantissa x 10**exponent differs from the reference")
 
     # (5) full contract
     if not viol:
